@@ -6,6 +6,7 @@
    with events evs towards destination d.  [adds l] are the events handed to Process in l. *)
 From Coq Require Import List NArith ZArith Permutation.
 From Verif Require Import Gated GatedProofs GatedExamples.
+From Verif Require Run_Gated RunGatedSound.
 Import ListNotations.
 
 (* exactly once: when the events handed to Process are pairwise distinct, every accepted event (Process returned no error) is,
@@ -84,6 +85,24 @@ Theorem C11_broker_composites_not_gateable : forall E l id evs d,
   In (LOut d id evs) (log (arun E l)) -> d = DSent \/ d = DSendErr -> compose E evs <> CGateable.
 Proof. exact broker_composites_not_gateable. Qed.
 Print Assumptions C11_broker_composites_not_gateable.
+
+(* ---------- what the check's verdict means ----------
+   The correspondence part of the check evaluates Run_Gated.mismatches / conc_mismatches on the harness' cases with vm_compute and
+   requires [].  That verdict is exactly: every observed history is an execution of the model (result, returned composite,
+   ComposeFrom arguments, payloads handed to the Sender and the VerifGated snapshot of every call are the model's) and satisfies
+   the observation-only oracles; every concurrent case satisfies the declarative concurrent oracle.  (The engine drops the
+   kinds that do not speak about the property at hand; on a tree where the whole list is empty this is the reading.) *)
+Theorem C11_verdict_is_model_execution : forall cs,
+  Run_Gated.mismatches cs = [] <->
+  Forall (fun c => RunGatedSound.accepted (Run_Gated.g_cfg c) s0 (Run_Gated.g_steps c) /\
+                   RunGatedSound.oracles_ok (Run_Gated.g_cfg c) RunGatedSound.ostate0 (Run_Gated.g_steps c)) cs.
+Proof. exact RunGatedSound.mismatches_nil_iff. Qed.
+Print Assumptions C11_verdict_is_model_execution.
+
+Theorem C11_concurrent_verdict_is_oracle : forall cs,
+  Run_Gated.conc_mismatches cs = [] <-> Forall (fun c => RunGatedSound.conc_ok (Run_Gated.cc_obs c)) cs.
+Proof. exact RunGatedSound.conc_mismatches_nil_iff. Qed.
+Print Assumptions C11_concurrent_verdict_is_oracle.
 
 (* the hypotheses are met by a history with distinct events, accepted events, a composite sent through the Broker and two
    groups still gated *)
